@@ -34,3 +34,12 @@ SOLVE = dict(module='c04', rules={'S1', 'S2', 'S3', 'S4', 'S5', 'S6', 'S7', 'S8'
                  "re-imposes the ghost layer; boundary data edited through the public setters are the ones solved with")
 BCROWS = dict(module='c03', rules={'B1', 'B2', 'B6', 'B7', 'B9'}, jobs=_bcrow_jobs, global_rules=True,
               why="the boundary rows and the ghost formulas encode the configured Robin relation a*dphi/dn + b*phi = c with the metric factor")
+
+
+def _algebra_jobs(tier):
+    return [(c, tier) for c in (('Grid1D', 'Grid2D') if tier == 'quick' else MESH_CLASSES)]
+
+
+ALGEBRA = dict(module='c14', rules={'O3', 'O4', 'O6'}, jobs=_algebra_jobs, global_rules=False,
+               why="copy() and arithmetic hand out variables that share no storage and no boundary-condition object with their operands "
+                   "(also on repeated calls), so edits of one never reach the other")
